@@ -590,7 +590,7 @@ GLOBAL_MODELS = [
     (R(r'(Option|Result)::(map|map_err|and_then|unwrap_or_else|ok_or_else|or_else|filter)$'), m_opt_map),
     (R(r'Option::ok_or$'), m_ok_or),
     (R(r'Result::ok$'), m_res_ok),
-    (R(r'Option::(as_ref|as_mut)$'), m_opt_asref),
+    (R(r'Option::(as_ref|as_mut|as_pin_mut|as_pin_ref|as_deref|as_deref_mut)$'), m_opt_asref),
     (R(r'Option::(cloned|copied)$'), m_opt_cloned),
     (R(r'Option::take$'), m_opt_take),
     (R(r' as (PartialEq|PartialOrd)>::(eq|ne|lt|le|gt|ge)$'), m_cmp),
